@@ -12,6 +12,7 @@ import (
 	"path/filepath"
 	"sort"
 	"strings"
+	"sync"
 
 	"github.com/AdguardTeam/urlfilter"
 	"github.com/AdguardTeam/urlfilter/filterlist"
@@ -443,6 +444,14 @@ func cmdDriveNetIndex(args []string) error {
 			reqs = append(reqs, reqJSON{URL: fmt.Sprintf("http://cdn.example/s%d/x.png", i), FrameURL: "http://" + src + "/page", Cpt: []string{"image", "script"}[i%2]})
 		}
 	}
+	// rules whose only long literal sits in, or straddles, the fragment of the URL
+	for i, rt := range []string{"*#/ads/banner", "/#!/sponsored^", "||frag%d.example/#/promo-banner", "#section-advert"} {
+		host := fmt.Sprintf("frag%d.example", i)
+		keep = append(keep, strings.ReplaceAll(rt, "frag%d", fmt.Sprintf("frag%d", i)))
+		reqs = append(reqs, reqJSON{URL: "http://" + host + "/#/promo-banner", FrameURL: "http://" + host + "/", Cpt: "script"},
+			reqJSON{URL: "http://" + host + "/page#/ads/banner-1", FrameURL: "", Cpt: "image"},
+			reqJSON{URL: "http://" + host + "/#!/sponsored/x#section-advert", FrameURL: "http://" + host + "/", Cpt: "xmlhttprequest"})
+	}
 	// three lists: plain; with a byte order mark and a title line; with CRLF line ends.  Where a rule sits in its
 	// list (and so its storage index) must not matter.
 	third := len(keep) / 3
@@ -493,6 +502,7 @@ func cmdDriveNetIndex(args []string) error {
 		}
 	}
 	nonempty := 0
+	var seqAnswers []niEvent
 	for _, rq := range reqs {
 		t, ok := cptTypes[rq.Cpt]
 		if !ok {
@@ -517,6 +527,7 @@ func cmdDriveNetIndex(args []string) error {
 			nonempty++
 		}
 		out.write(ev)
+		seqAnswers = append(seqAnswers, ev)
 		fev := niEvent{Query: rq.URL + " (file-backed lists)", Eng: []string{}, Scan: ev.Scan}
 		if pv := safeCall(func() {
 			for _, r := range feng.MatchAll(q) {
@@ -529,7 +540,53 @@ func cmdDriveNetIndex(args []string) error {
 			out.write(fev) // equal answers are already judged by the event above
 		}
 	}
-	summary(map[string]any{"events": out.n, "rules": len(all), "nonempty": nonempty})
+	// once more from 8 goroutines over a cold file-backed storage: an answer that differs from the sequential one is
+	// logged for the specification to judge
+	cst, err := filterlist.NewRuleStorage(func() []filterlist.RuleList {
+		var ls []filterlist.RuleList
+		for i := range flists {
+			fl, err := filterlist.NewFileRuleList([]int{1, -2, 3}[i], filepath.Join(fdir, fmt.Sprintf("list%d.txt", i)), false)
+			if err != nil {
+				panic(err)
+			}
+			ls = append(ls, fl)
+		}
+		return ls
+	}())
+	if err != nil {
+		return err
+	}
+	defer cst.Close()
+	ceng := urlfilter.NewNetworkEngine(cst)
+	var cmu sync.Mutex
+	concDiffer := 0
+	concurrently(len(seqAnswers), 8, seed(), func(_, i int) {
+		rq := reqs[i]
+		t, ok := cptTypes[rq.Cpt]
+		if !ok {
+			t = rules.TypeOther
+		}
+		q := rules.NewRequest(rq.URL, rq.FrameURL, t)
+		cev := niEvent{Query: rq.URL + " (8 goroutines, cold file-backed lists)", Eng: []string{}, Scan: seqAnswers[i].Scan}
+		if pv := safeCall(func() {
+			for _, r := range ceng.MatchAll(q) {
+				cev.Eng = append(cev.Eng, r.RuleText)
+			}
+		}); pv != "" {
+			cev.Eng = append(cev.Eng, "PANIC "+pv)
+		}
+		a, b := append([]string{}, cev.Eng...), append([]string{}, seqAnswers[i].Eng...)
+		sort.Strings(a)
+		sort.Strings(b)
+		if strings.Join(a, "\n") != strings.Join(b, "\n") {
+			cmu.Lock()
+			if concDiffer++; concDiffer <= 100 {
+				out.write(cev)
+			}
+			cmu.Unlock()
+		}
+	})
+	summary(map[string]any{"events": out.n, "rules": len(all), "nonempty": nonempty, "concurrent_answers": 8 * len(seqAnswers), "concurrent_differing": concDiffer})
 	return nil
 }
 
